@@ -146,7 +146,7 @@ func genResp(r *Rng, tier string, p *Plan) {
 		}
 		// auth mode changes
 		if r.Bool(0.35) {
-			authMode = PickOf(r, "ok", "ok", "slow", "slow", "fail", "unauthorized", "timeout")
+			authMode = PickOf(r, "ok", "ok", "slow", "slow", "fail", "unauthorized", "timeout", "flaky", "flaky")
 			p.Add(Op{K: "auth", At: now + 50_000, S: authMode})
 		}
 	}
@@ -154,6 +154,12 @@ func genResp(r *Rng, tier string, p *Plan) {
 		p.Add(Op{K: "unpark", At: now + 500_000})
 	}
 	p.N["api_slash"] = int64(PickOf(r, 0, 0, 0, 1))
+	p.N["env_ttl_us"] = PickOf(r, int64(1000), 0, 0)
+	if park {
+		// with two workers only the first is parked: within one request some
+		// events meet a full queue and later ones a free one
+		p.N["workers"] = int64(PickOf(r, 1, 1, 2))
+	}
 	p.SortOps()
 }
 
@@ -181,10 +187,21 @@ func otlpTraceBody(markers []string, seed uint64, first int) []byte {
 		spans = append(spans, &tracepb.Span{TraceId: tid, SpanId: sid, Name: "otlp-" + mk, StartTimeUnixNano: 1700000000_000000000, EndTimeUnixNano: 1700000001_000000000,
 			Attributes: []*commonpb.KeyValue{{Key: "mk", Value: &commonpb.AnyValue{Value: &commonpb.AnyValue_StringValue{StringValue: mk}}}}})
 	}
-	req := &coltrace.ExportTraceServiceRequest{ResourceSpans: []*tracepb.ResourceSpans{{
-		Resource:   &respb.Resource{Attributes: []*commonpb.KeyValue{{Key: "service.name", Value: &commonpb.AnyValue{Value: &commonpb.AnyValue_StringValue{StringValue: "svc"}}}}},
-		ScopeSpans: []*tracepb.ScopeSpans{{Spans: spans}},
-	}}}
+	res := func(name string) *respb.Resource {
+		return &respb.Resource{Attributes: []*commonpb.KeyValue{{Key: "service.name", Value: &commonpb.AnyValue{Value: &commonpb.AnyValue_StringValue{StringValue: name}}}}}
+	}
+	req := &coltrace.ExportTraceServiceRequest{}
+	if H(seed, "otlp-resources", first)%2 == 0 {
+		// every span under a resource entry of its own. (The same service name: a
+		// name per entry would mean a dataset per entry, hence concurrent forwards
+		// under one API key, whose lookups wait for each other on a sync mutex -
+		// a wait a synctest bubble cannot see as idle.)
+		for _, sp := range spans {
+			req.ResourceSpans = append(req.ResourceSpans, &tracepb.ResourceSpans{Resource: res("svc"), ScopeSpans: []*tracepb.ScopeSpans{{Spans: []*tracepb.Span{sp}}}})
+		}
+	} else {
+		req.ResourceSpans = []*tracepb.ResourceSpans{{Resource: res("svc"), ScopeSpans: []*tracepb.ScopeSpans{{Spans: spans}}}}
+	}
 	b, _ := proto.Marshal(req)
 	return b
 }
@@ -206,10 +223,17 @@ func otlpLogsBody(markers []string, seed uint64, first int) []byte {
 		}
 		recs = append(recs, rec)
 	}
-	req := &collogs.ExportLogsServiceRequest{ResourceLogs: []*logspb.ResourceLogs{{
-		Resource:  &respb.Resource{Attributes: []*commonpb.KeyValue{{Key: "service.name", Value: &commonpb.AnyValue{Value: &commonpb.AnyValue_StringValue{StringValue: "svc"}}}}},
-		ScopeLogs: []*logspb.ScopeLogs{{LogRecords: recs}},
-	}}}
+	res := func(name string) *respb.Resource {
+		return &respb.Resource{Attributes: []*commonpb.KeyValue{{Key: "service.name", Value: &commonpb.AnyValue{Value: &commonpb.AnyValue_StringValue{StringValue: name}}}}}
+	}
+	req := &collogs.ExportLogsServiceRequest{}
+	if H(seed, "otlp-resources", first)%2 == 0 {
+		for _, rec := range recs {
+			req.ResourceLogs = append(req.ResourceLogs, &logspb.ResourceLogs{Resource: res("svc"), ScopeLogs: []*logspb.ScopeLogs{{LogRecords: []*logspb.LogRecord{rec}}}})
+		}
+	} else {
+		req.ResourceLogs = []*logspb.ResourceLogs{{Resource: res("svc"), ScopeLogs: []*logspb.ScopeLogs{{LogRecords: recs}}}}
+	}
 	b, _ := proto.Marshal(req)
 	return b
 }
@@ -225,7 +249,9 @@ func runResp(t *testing.T, p *Plan) *Outcome {
 			sampler: &config.DeterministicSamplerConfig{SampleRate: 1}, samplerName: "DeterministicSampler", shuffleSeed: p.Seed,
 		})
 		for _, n := range w.nodes {
-			n.cfg.EnvironmentCacheTTL = time.Millisecond // every request looks its key up again
+			// every request looks its key up again; with 0 (legal) nothing is ever
+			// served from the cache, not even within one request
+			n.cfg.EnvironmentCacheTTL = us(p.Get("env_ttl_us", 1000))
 			if err := n.startNode(); err != nil {
 				out.Harness = fmt.Sprintf("node %s: %v", n.name, err)
 				return
